@@ -328,6 +328,29 @@ def _is_bool(t: ast.AST) -> bool:
     return False
 
 
+def canonical_callables(fn: ast.AST) -> None:
+    """``operator.attrgetter('a')`` is ``lambda x: x.a`` and ``operator.itemgetter(k)`` is ``lambda x: x[k]`` (one plain
+    argument; ``operator`` not re-bound locally)."""
+    if any(isinstance(n, ast.Name) and n.id == 'operator' and isinstance(n.ctx, ast.Store) for n in ast.walk(fn)) or 'operator' in _params(fn):
+        return
+
+    class X(ast.NodeTransformer):
+        def visit_Call(self, n):  # noqa: N802
+            self.generic_visit(n)
+            f = n.func
+            if isinstance(f, ast.Attribute) and isinstance(f.value, ast.Name) and f.value.id == 'operator' and len(n.args) == 1 and not n.keywords and isinstance(n.args[0], ast.Constant):
+                arg = n.args[0].value
+                param = ast.arguments(posonlyargs=[], args=[ast.arg(arg='x__op')], kwonlyargs=[], kw_defaults=[], defaults=[])
+                if f.attr == 'attrgetter' and isinstance(arg, str) and arg.isidentifier():
+                    return ast.copy_location(ast.Lambda(args=param, body=ast.Attribute(value=ast.Name(id='x__op', ctx=ast.Load()), attr=arg, ctx=ast.Load())), n)
+                if f.attr == 'itemgetter':
+                    return ast.copy_location(ast.Lambda(args=param, body=ast.Subscript(value=ast.Name(id='x__op', ctx=ast.Load()), slice=n.args[0], ctx=ast.Load())), n)
+            return n
+
+    X().visit(fn)
+    ast.fix_missing_locations(fn)
+
+
 def boolean_algebra(fn: ast.AST) -> None:
     """``a ^ b`` on booleans is ``a != b``; in ``a == b`` / ``a != b`` on booleans a negated operand flips the operator."""
     class X(ast.NodeTransformer):
@@ -1922,8 +1945,13 @@ def split_loop_rebindings(fn: ast.AST) -> None:
 
 
 def split_block_rebindings(fn: ast.AST) -> None:
-    """``x = f(x)`` inside a block (an if arm, a with body - not a loop) where x is dead once the block is left - no
-    statement that can run afterwards mentions it: from that binding on x is a variable of its own."""
+    """Bindings below the top level that start a variable of their own, because nothing that can run afterwards (or before,
+    in a later round of an enclosing loop) sees the value:
+    * ``x = f(x)`` / ``x = E`` inside a block (an if arm, a with or try body) with every later mention of x in the rest of that
+      block (for a try body: plus its else block) - inside a loop x must be a counter of that loop (bound anew by the header)
+      or occur nowhere else in the loop;
+    * ``for x in IT: BODY`` (outside any loop) where x is not mentioned after the loop: the header binds x before BODY reads it.
+    The name must occur elsewhere in the function as well (otherwise there is nothing to split off)."""
     counter = 0
     if any(isinstance(n, (ast.Global, ast.Nonlocal)) for n in ast.walk(fn)):
         return
@@ -1931,37 +1959,68 @@ def split_block_rebindings(fn: ast.AST) -> None:
     for n in ast.walk(fn):
         if n is not fn and isinstance(n, FUNC + (ast.Lambda, ast.ClassDef, ast.GeneratorExp, ast.ListComp, ast.SetComp, ast.DictComp)):
             closure_names |= {x.id for x in ast.walk(n) if isinstance(x, ast.Name)} | {x.arg for x in ast.walk(n) if isinstance(x, ast.arg)}
+    params = _params(fn)
 
     def names(nodes) -> set:
         return {x.id for n in nodes for x in ast.walk(n) if isinstance(x, ast.Name)} | {x.name for n in nodes for x in ast.walk(n) if isinstance(x, ast.ExceptHandler) and x.name}
 
-    def visit(seq: list, later: set, top: bool, counters: typing.Optional[set] = None) -> None:
-        """``later``: names mentioned by anything that may run after ``seq`` is left.  Inside a ``for`` body only the loop's
-        own target variables qualify (``counters``): the loop header binds them anew before the next round reads them."""
+    def count(x: str, nodes) -> int:
+        return sum(1 for n in nodes for y in ast.walk(n) if isinstance(y, ast.Name) and y.id == x)
+
+    total = {}
+    for y in ast.walk(fn):
+        if isinstance(y, ast.Name):
+            total[y.id] = total.get(y.id, 0) + 1
+
+    def rename(x: str, target: ast.Name, region: list) -> None:
         nonlocal counter
+        counter += 1
+        new = f'{x}__k{counter}'
+        target.id = new
+        for s_ in region:
+            for n in ast.walk(s_):
+                if isinstance(n, ast.Name) and n.id == x:
+                    n.id = new
+
+    def visit(seq: list, later: set, top: bool, counters: typing.Optional[set] = None, loop: typing.Optional[ast.AST] = None, tail: typing.Optional[list] = None) -> None:
+        """``later``: names mentioned by anything that may run after ``seq`` (and ``tail``, the else block of a try whose body
+        ``seq`` is) is left.  ``loop``: the innermost enclosing for loop, ``counters`` its target names."""
+        tail = tail or []
         for k, st in enumerate(seq):
-            after = later | names(seq[k + 1:])
+            after = later | names(seq[k + 1:]) | names(tail)
             if isinstance(st, ast.If):
-                visit(st.body, after, False, counters)
-                visit(st.orelse, after, False, counters)
+                visit(st.body, after, False, counters, loop)
+                visit(st.orelse, after, False, counters, loop)
             elif isinstance(st, (ast.With, ast.AsyncWith)):
-                visit(st.body, after, False, counters)
+                visit(st.body, after, False, counters, loop)
+            elif isinstance(st, ast.Try) and not st.finalbody:
+                visit(st.body, after | names(st.handlers), False, counters, loop, tail=st.orelse)
             elif isinstance(st, ast.For) and not any(isinstance(x, ast.Name) and isinstance(x.ctx, ast.Load) for x in ast.walk(st.target)):
-                visit(st.body, after | names(st.orelse), False, {x.id for x in ast.walk(st.target) if isinstance(x, ast.Name)})
+                if loop is None and isinstance(st.target, ast.Name):
+                    x = st.target.id
+                    inside = count(x, [st.target] + st.body)
+                    if x not in after and x not in names(st.orelse) and x not in names([st.iter]) and x not in closure_names and (total.get(x, 0) > inside or x in params):
+                        total[x] = total.get(x, 0) - inside
+                        rename(x, st.target, st.body)
+                visit(st.body, after | names(st.orelse), False, {x.id for x in ast.walk(st.target) if isinstance(x, ast.Name)}, st)
             if top or not (isinstance(st, ast.Assign) and len(st.targets) == 1 and isinstance(st.targets[0], ast.Name)):
                 continue
             x = st.targets[0].id
-            if x in later or x in closure_names or x not in names([st.value]) or (counters is not None and x not in counters):
+            region = seq[k + 1:] + tail
+            if x in later or x in closure_names:
                 continue
-            if any(isinstance(n, ast.Name) and n.id == x and isinstance(n.ctx, (ast.Store, ast.Del)) for s_ in seq[k + 1:] for n in ast.walk(s_)):
+            if any(isinstance(n, ast.Name) and n.id == x and isinstance(n.ctx, (ast.Store, ast.Del)) for s_ in region for n in ast.walk(s_)):
                 continue
-            counter += 1
-            new = f'{x}__k{counter}'
-            st.targets[0].id = new
-            for s_ in seq[k + 1:]:
-                for n in ast.walk(s_):
-                    if isinstance(n, ast.Name) and n.id == x:
-                        n.id = new
+            fresh = x not in names([st.value])
+            if loop is not None and not (not fresh and counters is not None and x in counters):
+                # not a counter re-binding: every mention of x in the loop must lie in the region (the binding then comes
+                # first in every round)
+                if not fresh or count(x, [loop]) != 1 + count(x, region):
+                    continue
+            if fresh and not (total.get(x, 0) > 1 + count(x, region) or x in params):
+                continue  # the only binding of the name: nothing to split
+            total[x] = total.get(x, 0) - 1 - count(x, region) - (0 if fresh else count(x, [st.value]))
+            rename(x, st.targets[0], region)
 
     visit(fn.body, set(), True)
 
@@ -2367,6 +2426,7 @@ def normal_form(fn: ast.AST, sigs: typing.Optional[SignatureIndex] = None, owner
         strip_meta(node)
         canonical_tests(node)
         boolean_algebra(node)
+        canonical_callables(node)
         drop_sticky_flag_tests(node)
         loops_to_comprehensions(node)
         split_chained_assignments(node)
